@@ -45,6 +45,7 @@ def parse_records(msg: str) -> list:
 class C12(TalCheck):
     prop = "C12"
     level = "fault_enumeration"
+    hold_exceptions = True
     gen_opts = {"on_error": 0.12, "max_sites": 20, "pipes": 0.3,
                 "prefixes": 0.3, "max_depth": 3, "macros": 0.25, "i18n": 0.1,
                 "entities": 0.25, "code": 0.15, "twins": 0.25}
